@@ -431,6 +431,17 @@ def c18(run):
             for f in faults[1:]:
                 cases.append({"from": 1, "amount": amount, "chunk": chunk, "mode": "honest", "soloSecond": True,
                               "peers": [{"script": f, "avail": 1 + amount + chunk + 4}, {"script": []}]})
+    # two calls on one client: the first range is held by every peer (one sub-request: one of them serves it), the second
+    # call asks for the NEXT range, which only the peers with the longer chain hold — whoever served the first call
+    for chunk in (2, 3, 4):
+        for amount in range(1, chunk + 1):
+            for order in (0, 1, 2):
+                peers = [{"script": [], "avail": 1 + amount}, {"script": [], "avail": 1 + 2 * amount + chunk + 4}]
+                if order == 2:
+                    peers.append({"script": [], "avail": 1 + amount})
+                if order == 1:
+                    peers.reverse()
+                cases.append({"from": 1, "amount": amount, "chunk": chunk, "mode": "honest", "shiftSecond": True, "peers": peers})
     # the connection to the capable peer is lost while a lagging peer answers: it is queued in the session but disconnected
     # (one sub-request only: mocknet has no deadlines, so a connection must not be closed under a stream that is in use)
     for chunk in (2, 3, 4):
